@@ -292,6 +292,36 @@ func pickLimit(r *rand.Rand, size int) int {
 	}
 }
 
+
+// levels of the tree (0 = empty, 1 = a leaf root)
+func levels(t *btree.BTree) int {
+	root, _, _ := t.VerifShape()
+	n := 0
+	for s := root; s != nil; {
+		n++
+		if len(s.Children) == 0 {
+			break
+		}
+		s = s.Children[0]
+	}
+	return n
+}
+
+// one pivot of each class relative to the present keys: present, absent between two keys, below the minimum,
+// above the maximum
+func pivotClasses(r *rand.Rand, ks *keyset) []int {
+	s := ks.sorted()
+	if len(s) == 0 {
+		return []int{0}
+	}
+	lo, hi := s[0], s[len(s)-1]
+	out := []int{s[r.Intn(len(s))], lo - 1 - r.Intn(2), hi + 1 + r.Intn(2)}
+	if hi > lo {
+		out = append(out, lo+1+2*r.Intn((hi-lo)/2)) // keys are even: an odd pivot is absent
+	}
+	return out
+}
+
 type stepRec struct{ coq, str string }
 
 func join(steps []stepRec) (string, []string) {
@@ -373,6 +403,40 @@ func genWrapper(r *rand.Rand, variant string) vh.Case {
 		}
 	}
 	switch variant {
+	case "limits":
+		// a tree of at least three levels; then, for each of the four scans and a pivot of every class, EVERY limit
+		// 0..len+1 (the n-th match may sit anywhere relative to the node boundaries)
+		u = 9 + r.Intn(10)
+		for len(ks.m) < u || levels(t.VerifInner()) < 3 {
+			do(wop{kind: "insert", x: kv{2 * r.Intn(2*u), ks.pay()}}, false)
+		}
+		for i := r.Intn(4); i > 0; i-- {
+			do(write(false), false)
+		}
+		do(wop{kind: "get", k: 0}, true)
+		sparse := filt{kind: "key", m: 4, r: 2 * r.Intn(2)}
+		sparseScan := r.Intn(4)
+		for w := 0; w < 4; w++ {
+			pcs := pivotClasses(r, ks)
+			r.Shuffle(len(pcs), func(i, j int) { pcs[i], pcs[j] = pcs[j], pcs[i] })
+			// the pivot outside the keys on the side the scan starts from delivers the whole tree
+			full := pcs[0]
+			for _, p := range pcs {
+				if (w < 2 && p < full) || (w >= 2 && p > full) {
+					full = p
+				}
+			}
+			for _, p := range []int{full, pcs[0], pcs[1]} {
+				for n := 0; n <= len(ks.m)+1; n++ {
+					do(wop{kind: "scan", w: w, k: p, f: filt{kind: "all"}, n: n}, false)
+				}
+			}
+			if w == sparseScan {
+				for n := 0; n <= len(ks.m)/2+1; n++ {
+					do(wop{kind: "scan", w: w, k: full, f: sparse, n: n}, false)
+				}
+			}
+		}
 	case "sweep":
 		// build a tree, then every one of the four scans from every pivot position
 		nb := u + r.Intn(2*u)
@@ -532,6 +596,62 @@ func genInner(r *rand.Rand, deg int, variant string) vh.Case {
 		}
 	}
 	switch variant {
+	case "stops":
+		// a tree of at least three levels; all ten entry points with a callback that stops after m items, for EVERY m
+		want := 3
+		nmin := 9
+		for len(ks.m) < nmin || levels(t) < want {
+			do(iop{kind: "ins", x: kv{2 * r.Intn(200), ks.pay()}}, false)
+		}
+		do(iop{kind: "len"}, true)
+		pcs := pivotClasses(r, ks)
+		s := ks.sorted()
+		lo, hi := s[0]-1, s[len(s)-1]+1
+		for e := 0; e < 10; e++ {
+			// one run over the whole tree and one from a random pivot class
+			ps := [][2]int{{lo, hi}, {pcs[r.Intn(len(pcs))], pcs[r.Intn(len(pcs))]}}
+			if e >= 5 {
+				ps[0] = [2]int{hi, lo}
+			}
+			if e == 2 || e == 8 { // AscendLessThan / DescendGreaterThan: the pivot is the far bound
+				ps[0] = [2]int{ps[0][1], ps[0][0]}
+			}
+			if e == 0 || e == 5 {
+				ps = ps[:1]
+			}
+			for j, pq := range ps {
+				full := applyI(t, iop{kind: "scan", e: e, p: pq[0], q: pq[1], m: 0})
+				top := len(full.list) + 1
+				if j > 0 && top > 5 {
+					top = 5
+				}
+				for m := 1; m <= top; m++ {
+					do(iop{kind: "scan", e: e, p: pq[0], q: pq[1], m: m}, false)
+				}
+			}
+		}
+	case "reinsert":
+		// every present key is stored again with a new payload (the key may be the median of a full node on the way
+		// down, which is split first), then read back
+		nb := u + r.Intn(u)
+		for i := 0; i < nb; i++ {
+			do(iop{kind: "ins", x: kv{anyKey(r, u), ks.pay()}}, false)
+		}
+		for round := 0; round < 2; round++ {
+			keys := ks.sorted()
+			r.Shuffle(len(keys), func(i, j int) { keys[i], keys[j] = keys[j], keys[i] })
+			for _, k := range keys {
+				do(iop{kind: "ins", x: kv{k, ks.pay()}}, false)
+				if r.Intn(3) == 0 {
+					do(iop{kind: "get", k: k}, false)
+				}
+			}
+			do(iop{kind: "scan", e: 0, m: 0}, true)
+			// refill so that nodes on the search paths are full again
+			for i := 0; i < u/2; i++ {
+				do(iop{kind: "ins", x: kv{anyKey(r, u), ks.pay()}}, false)
+			}
+		}
 	case "sweep":
 		nb := u + r.Intn(2*u)
 		for i := 0; i < nb; i++ {
@@ -598,7 +718,10 @@ func snapshot(hs []*btree.BTree) obs {
 	return o
 }
 
-func genClone(r *rand.Rand, deg int) vh.Case {
+func genClone(r *rand.Rand, deg int, variant string) vh.Case {
+	if variant == "fullroot" {
+		return genCloneFullRoot(r, deg)
+	}
 	hs := make([]*btree.BTree, 4)
 	hs[0] = btree.New(deg)
 	sets := make([]*keyset, 4)
@@ -768,4 +891,62 @@ func genConc(r *rand.Rand, g int, stress bool) vh.Case {
 	return vh.Case{Coq: fmt.Sprintf("(CaseP %d [%s] %s)%%Z", g, strings.Join(hist, ";\n"), coqShape(t.VerifInner())), Nontrivial: true,
 		Desc: map[string]interface{}{"kind": "concurrent callers of one wrapper", "callers": g, "histories": desc,
 			"final": fmt.Sprintf("%s len=%d", strShape(root), length)}}
+}
+
+
+// Clone() taken exactly when the root holds 2*degree-1 items (as a leaf root or as an inner root), then a write on the
+// original or on the clone (the next ReplaceOrInsert splits that root), then snapshots of every handle
+func genCloneFullRoot(r *rand.Rand, deg int) vh.Case {
+	hs := make([]*btree.BTree, 4)
+	hs[0] = btree.New(deg)
+	ks := newKeyset()
+	steps := []stepRec{}
+	rec := func(c, res, sh, s string) { steps = append(steps, stepRec{"(" + c + ", " + res + ", " + sh + ")", s}) }
+	on := func(h int, o iop, shape bool) {
+		res := applyI(hs[h], o)
+		sc, ss := optShape(hs[h], shape)
+		rec(fmt.Sprintf("COn %d%%nat (%s)", h, o.coq()), res.coq(), sc, fmt.Sprintf("h%d.%s = %s%s", h, o.String(), res.String(), ss))
+	}
+	snap := func() {
+		o := snapshot(hs)
+		rec("CSnap", o.coq(), "None", "Snapshot = "+o.String())
+	}
+	inner := r.Intn(2) == 0
+	univ := 40 * deg * deg
+	for guard := 0; guard < 100000; guard++ {
+		root, _, _ := hs[0].VerifShape()
+		if root != nil && len(root.Items) == 2*deg-1 && (len(root.Children) > 0) == inner {
+			break
+		}
+		o := iop{kind: "ins", x: kv{2 * r.Intn(univ), ks.pay()}}
+		res := applyI(hs[0], o)
+		shadowI(ks, o, res)
+		rec("COn 0%nat ("+o.coq()+")", res.coq(), "None", "h0."+o.String()+" = "+res.String())
+	}
+	_, ss := optShape(hs[0], true)
+	hs[1] = hs[0].Clone()
+	rec("CClone 0%nat 1%nat", "OUnit", "None", "h1 = h0.Clone() with the root full:"+ss)
+	write := func(h int) {
+		var o iop
+		switch x := r.Intn(10); {
+		case x < 5:
+			o = iop{kind: "ins", x: kv{2*r.Intn(univ) + 1, ks.pay()}} // a new key
+		case x < 8:
+			k, _ := ks.present(r)
+			o = iop{kind: "ins", x: kv{k, ks.pay()}} // an existing key
+		default:
+			k, _ := ks.present(r)
+			o = iop{kind: "del", k: k}
+		}
+		on(h, o, true)
+	}
+	first := r.Intn(2)
+	write(first)
+	snap()
+	on(1-first, iop{kind: "len"}, true)
+	write(1 - first)
+	snap()
+	coq, ds := join(steps)
+	return vh.Case{Coq: "(CaseC " + fmt.Sprint(deg) + "%nat " + coq + ")%Z", Nontrivial: true,
+		Desc: map[string]interface{}{"kind": "clone program, clone taken with a full root", "degree": deg, "inner_root": inner, "steps": ds}}
 }
